@@ -262,16 +262,33 @@ def flags(ctx):
                           'not treated as constant - it reads as the cached value instead of the described constant (or can be changed)', fi)
     init = m.method(roles.MODULE, '__init__', inherited=False)
     ctx.analysed(init)
+    # the three stores: `self.<attr> = ...` - or `setattr(self, key, value)` in a loop over the items of a dict literal that a
+    # helper method returns (`for key, value in self._automaticProperties().items()`)
+    auto = [(t, v, s) for t, v, s in attr_stores(init.node) if dotted(t.value) == 'self' and t.attr in ('implementation', 'interface_classes', 'features')]
+    for loop in [x for x in body_walk(init.node) if isinstance(x, ast.For) and isinstance(x.iter, ast.Call) and call_attr(x.iter) == 'items'
+                 and isinstance(x.iter.func.value, ast.Call) and isinstance(x.iter.func.value.func, ast.Attribute) and dotted(x.iter.func.value.func.value) == 'self']:
+        hname = loop.iter.func.value.func.attr
+        if not (isinstance(loop.target, ast.Tuple) and len(loop.target.elts) == 2 and m.has_method(roles.MODULE, hname)):
+            continue
+        k, v = (src(e) for e in loop.target.elts)
+        sets = [c for c in calls_in(loop) if dotted(c.func) == 'setattr' and len(c.args) == 3 and src(c.args[0]) == 'self' and src(c.args[1]) == k and src(c.args[2]) == v]
+        sets += [c for c in calls_in(loop) if call_attr(c) == 'setProperty' and dotted(c.func.value) == 'self' and len(c.args) == 2 and src(c.args[0]) == k and src(c.args[1]) == v]
+        h = m.method(roles.MODULE, hname)
+        for d in [r.value for r in body_walk(h.node) if isinstance(r, ast.Return) and isinstance(r.value, ast.Dict)]:
+            for dk, dv in zip(d.keys, d.values):
+                if isinstance(dk, ast.Constant) and dk.value in ('implementation', 'interface_classes', 'features') and sets:
+                    stmt = next((a for a in ancestors(sets[0]) if isinstance(a, ast.stmt)), None)
+                    auto.append((ast.Attribute(value=ast.Name(id='self', ctx=ast.Load()), attr=dk.value, ctx=ast.Store()), dv, stmt))
     for attr in ('implementation', 'interface_classes', 'features'):
-        st = [v for t, v, s in attr_stores(init.node) if t.attr == attr and dotted(t.value) == 'self']
+        st = [v for t, v, s in auto if t.attr == attr]
         ok = bool(st) and all(v is not None and ('mycls' in src(v, 300) or 'myclassname' in src(v, 300)) for v in st)
         if ok and attr in ('interface_classes', 'features'):
             ok = all('mycls.__mro__' in src(v, 300) for v in st)
         ctx.check(ok, f'{init.qualname}:automatic property {attr}', init.node, f'{attr} computed from the implementing class',
                   f'{attr} is not computed from the implementing class (skipping the wrapper class)', init)
     # the selecting conditions of the two comprehensions, with their polarity
-    for t, v, st in attr_stores(init.node):
-        if dotted(t.value) != 'self' or t.attr not in ('interface_classes', 'features'):
+    for t, v, st in auto:
+        if t.attr not in ('interface_classes', 'features'):
             continue
         comps = [x for x in ast.walk(v) if isinstance(x, ast.ListComp)] if v is not None else []
         conds = [compare_ops(c) for x in comps for g in x.generators for c in g.ifs]
@@ -292,7 +309,7 @@ def flags(ctx):
     if not applied:
         raise AnchorMissing('loop applying the configured module properties (self.setProperty in a loop over propertyDict) not found in Module.__init__')
     for attr in ('implementation', 'interface_classes', 'features'):
-        sts = [i for t, v, s in attr_stores(init.node) if t.attr == attr and dotted(t.value) == 'self' for i in cfgi.node_of(s)]
+        sts = [i for t, v, s in auto if t.attr == attr and s is not None for i in cfgi.node_of(s)]
         later = cfgi.reach(sts) & set(applied) if sts else {0}
         ctx.check(not later, f'{init.qualname}:automatic property {attr} overrides the configuration', init.node,
                   'stored after the configured properties were applied',
